@@ -256,7 +256,7 @@ class Shim:
         self._napply = getattr(self, "_napply", 0) + 1
         if i is not None and not os.environ.get("VERIF_NO_STALE_PROJECTION"):
             import zlib
-            hsh = zlib.crc32(("%d/%d/%d" % (self._napply, self.n, m)).encode())
+            hsh = zlib.crc32(("%d/%d/%d" % (self._napply, self.n, self.nb)).encode())      # a pure function of the case
             if hsh % 3 == 0:
                 r = np.random.Generator(np.random.PCG64(hsh))
                 for b in range(self.nb):
